@@ -19,7 +19,7 @@ CLAIMED = {
    note="decimal formatting of |v| >= 10^5 and float formatting are placeholders; allocation size is not a panic.",
    ref="6 C03"),
  "C04": dict(
-   text="Text -> binary through the real scanner/parser (strconv.ParseInt executed symbolically): (a) every text of 0..5 (quick) / 0..7 bytes over all 256 byte values: no panic, and an accepted text yields exactly one complete NBT value (independent grammar reference) of the announced TagType; (b) the same texts and structured texts (quoted keys and values with arbitrary content incl. escapes, typed arrays, nested containers, arbitrary separators) against an independent three-valued SNBT reader: where that reader is certain the text is a value, an accepting parser produced exactly that tag and payload; where it is certain the text is malformed (empty, unbalanced or mismatched brackets, missing ':', stray delimiter, unterminated quote, non-space after the top-level value) the parser returned an error. Binary -> text -> binary: generated documents without floats (2-3 value nodes, all integer tags, strings and keys of arbitrary bytes incl. non-ASCII and number-like, typed arrays, lists, compounds; integers of 2 (quick) / 5 decimal digits) convert to text and parse back to the identical bytes and tag type.",
+   text="Text -> binary through the real scanner/parser (strconv.ParseInt executed symbolically): (a) every text of 0..5 (quick) / 0..7 bytes over all 256 byte values: no panic, and an accepted text yields exactly one complete NBT value (independent grammar reference) of the announced TagType; (b) the same texts and structured texts (quoted keys and values with arbitrary content incl. escapes, typed arrays, nested containers, arbitrary separators) against an independent three-valued SNBT reader: where that reader is certain the text is a value, an accepting parser produced exactly that tag and payload; where it is certain the text is malformed (empty, unbalanced or mismatched brackets, missing ':', stray delimiter, unterminated quote, non-space after the top-level value) the parser returned an error. Binary -> text -> binary: generated documents without floats (2-3 value nodes, all integer tags, strings and keys of arbitrary bytes incl. non-ASCII and number-like, typed arrays, lists, compounds; integers of 2 (quick) / 3 decimal digits) convert to text and parse back to the identical bytes and tag type.",
    note="ParseFloat/FormatFloat are placeholders: float literals are checked for tag type and width only; decimal formatting is an exact model up to 10^5; whether every text of the grammar must be accepted is not asserted (only what the writer emits, via the round trip); nesting limit outside.",
    ref="6 C04"),
  "C05": dict(
